@@ -436,7 +436,7 @@ class C20:
             'at 1e-9 and one ulp off, two/one/no roots inside, roots at the interval ends, exact and near double roots, no real root, degenerate and '
             'reversed intervals, tiny A with large B, large scale, generic); binary_interval_search: ALL sorted ranges of length <= 8 (thorough: 11) over a 4-letter '
             'alphabet (fixed, seeded-random, int) x 9 queries, random ranges up to 2200 elements x 8 shapes x 6 query kinds, crash probes; '
-            'every constexpr table (8 bases x K=0..10, cumulative, monomial_integral K<=10 x P<=4, lgr_nodes K=1..16). '
+            'every constexpr table (8 bases x K=0..10, cumulative, monomial_integral K<=10 x every order P<=max(4,K+1) (P<=4 re-proved in Lean, higher orders audited exactly and compared with the model at 0 ulp), lgr_nodes K=1..16). '
             'distinct_nontrivial = distinct (op, parameters, input bits) with at least one non-zero input')
     assumptions = ['IEEE rounding of the run-time functions is audited against exact rational evaluation (sampling), not proved',
                    'LGR Newton iteration is not proved convergent: the produced nodes/weights are checked a posteriori by the kernel',
